@@ -28,4 +28,12 @@ PROPS = {
                     "the reschedule goroutine is modelled as the same report re-appearing later in the message list"],
         "assumes": ["flow ids of concurrently live tokens are distinct (C20)"],
     },
+    "C13": {
+        "cmd": "c13",
+        "corr": ["Corr.C13corr"],
+        "trusted": ["iso8601 parsing (the model starts from parsed start/interval/end/repetitions)",
+                    "each clock operation is followed by quiescence of the timer goroutine (the harness waits for it via a recording clock wrapper); a clock jump landing while a wake-up is in flight is not modelled",
+                    "Go select between a ready end-timer and a ready timer is modelled as one outcome (both close the timer without firing)"],
+        "assumes": ["interval > 0 (the code busy-loops for interval <= 0; excluded from the theorems' hypotheses)"],
+    },
 }
